@@ -38,10 +38,12 @@ enum Who {
     EpochManager,
     FeeCollector,
     Stranger,
+    /// the account that instantiated the epoch manager and the farm manager (naming another owner)
+    Deployer,
     ContractAccount,
 }
 
-const ROLES: [Who; 13] = [Who::Owner, Who::Pending, Who::OldPending, Who::Former, Who::FarmOwner, Who::PositionOwner, Who::PoolManager, Who::ConfiguredDelegate, Who::FarmManager, Who::EpochManager, Who::FeeCollector, Who::Stranger, Who::ContractAccount];
+const ROLES: [Who; 14] = [Who::Owner, Who::Pending, Who::OldPending, Who::Former, Who::FarmOwner, Who::PositionOwner, Who::PoolManager, Who::ConfiguredDelegate, Who::FarmManager, Who::EpochManager, Who::FeeCollector, Who::Stranger, Who::Deployer, Who::ContractAccount];
 
 #[derive(Clone, Copy, PartialEq, Eq, Debug, Hash)]
 enum OwnState {
@@ -580,6 +582,7 @@ pub fn run_prep(cfg: &RunCfg, idx: usize, prep: Prep) -> Reporter {
                     Who::EpochManager => w.em.clone(),
                     Who::FeeCollector => w.fc.clone(),
                     Who::Stranger => stranger.clone(),
+                    Who::Deployer => w.deployer.clone(),
                     Who::ContractAccount => w.hostile.clone(),
                 };
                 for with_funds in [false, true] {
